@@ -20,7 +20,7 @@ func init() {
 			"D4 outputs are installed only as complete files: Compactor.writeNewFiles returns file names only after write() returned nil and removes its temporary outputs otherwise (shared with C01). " +
 			"D5 the reservation of the input files (Compactor.add) is released on every exit of CompactFull/CompactFast once it was taken; D6 an abort is honoured between blocks: in Compactor.write every block read is preceded, since the iterator advanced, by a look at the enabled flags, and the function can return errCompactionAborted; D7 the only files compactGroup removes are elements of the slice returned by CompactFast/CompactFull (its own outputs). " +
 			"D8 blocks.Less for equal keys equals 'block i lies entirely before block j' on every ordering of the four block bounds (so the stable sort keeps overlapping blocks in file order and the newer value wins); a possibly-successful return of writeNewFiles hands back the accumulated list of files; every read of FileStore.files in a function that replaces the field happens under the store's write lock (atomic read-modify-write). " +
-			"D9 in the compactor's key iterators every path that leaves BlockIterator.Next with the answer false consults BlockIterator.Err before returning (a failed input is not treated as exhausted); D10 the cache read concatenates the retained snapshot's entry before the live store's entry on every path (Values.Deduplicate keeps the last value of a timestamp, so the reverse order lets an older snapshot value override a newer acknowledged write while a snapshot is in flight or retained after a failed flush) (shared with C02/C11). " +
+			"D9 in the compactor's key iterators every path that leaves BlockIterator.Next with the answer false consults BlockIterator.Err before returning (a failed input is not treated as exhausted); D10 the cache read concatenates the retained snapshot's entry before the live store's entry on every path (Values.Deduplicate keeps the last value of a timestamp, so the reverse order lets an older snapshot value override a newer acknowledged write while a snapshot is in flight or retained after a failed flush) (shared with C02/C11); D11 in Compactor.compact each running maximum of (generation, sequence) that names the output is compared with the variable it is then stored into. " +
 			"NOT decided: value-level merge arithmetic (newest wins, Exclude ranges), block size/count limits, sortedness of output blocks.",
 		RuleText:    "obligation = (rule, function, site); path exploration with outcome facts; attribute-set comparison between the first-block test and the per-block loop; struct-field coverage of re-initialisation; definition provenance",
 		Assumptions: commonAssumptions,
@@ -663,6 +663,7 @@ func runC09(c *core.Ctx) {
 
 	c.Clause("D9", func() { runExhaustionChecksError(c) })
 	c.Clause("D10", func() { runCacheReadOrder(c) })
+	c.Clause("D11", func() { runRunningMaxima(c) })
 
 	c.Clause("D7", func() {
 		// what compactGroup deletes after a failed install are the compaction's outputs
